@@ -48,7 +48,7 @@ class Call:
     @property
     def res(self):
         """resolved callee path (falls back to the declared path)"""
-        return self.desc.get("res") or self.desc.get("fn")
+        return self.desc.get("res") or self.desc.get("fn") or "<fnptr>"
 
     @property
     def rk(self):
